@@ -76,6 +76,15 @@ pub open spec fn binop_rank(t: Token) -> int {
         _ => -1,
     }
 }
+/// rank of every token that continues an expression inside parse_precedence: the binary operators,
+/// and above all of them call / index / field access (the level of Prec::Index) and the arrow
+pub open spec fn tok_rank(t: Token) -> int {
+    match t {
+        Token::LeftBracket | Token::Dot | Token::LeftParen => 7,
+        Token::Arrow => 8,
+        _ => binop_rank(t),
+    }
+}
 /// tokens that continue an expression as a postfix form (call, index, field access, arrow call)
 pub open spec fn is_postfix_tok(t: Token) -> bool {
     t is Arrow || t is Prime || t is LeftParen || t is LeftBracket || t is Dot
@@ -447,6 +456,7 @@ impl Next for Prec {
     ensures
         binop_rank(*token) >= 0 ==> rank(r) == binop_rank(*token), //# C13 precedence.table
         binop_rank(*token) < 0 ==> (rank(r) == 0 || rank(r) >= 7), //# C13 precedence.postfix_tighter_or_none
+        rank(r) == (if tok_rank(*token) >= 0 { tok_rank(*token) } else { 0 }), //# C13 precedence.table_with_call_index_and_field_access_on_top
         rank(r) >= 7 ==> is_postfix_tok(*token), //# C13 precedence.only_postfix_above_factor
 //@   endspec
 //@ end
@@ -468,8 +478,8 @@ impl Next for Prec {
     ensures
         r is Ok ==> wf(r->Ok_0.1), //# C13 parse_precedence.wf
         r is Ok ==> top_rank(r->Ok_0.1) >= rank(prec), //# C13 parse_precedence.result_at_least_prec
-        r is Ok ==> binop_rank(r->Ok_0.0.tok()) < rank(prec), //# C13 parse_precedence.stops_below_prec
-        r is Ok ==> binop_rank(r->Ok_0.0.tok()) <= top_rank(r->Ok_0.1), //# C13 parse_precedence.next_not_tighter
+        r is Ok ==> tok_rank(r->Ok_0.0.tok()) < rank(prec), //# C13 parse_precedence.stops_below_prec
+        r is Ok ==> tok_rank(r->Ok_0.0.tok()) <= top_rank(r->Ok_0.1), //# C13 parse_precedence.next_not_tighter
         r is Ok ==> pe_shape(r->Ok_0.1), //# C07 parse_precedence.result_shape
 //@   endspec
 //@   loop 1
@@ -477,9 +487,9 @@ impl Next for Prec {
             wf(expr), //# C13 parse_precedence.loop.wf
             pe_shape(expr), //# C07 parse_precedence.loop.shape
             top_rank(expr) >= rank(prec), //# C13 parse_precedence.loop.rank
-            binop_rank(ctx.tok()) <= top_rank(expr), //# C13 parse_precedence.loop.next_not_tighter
+            tok_rank(ctx.tok()) <= top_rank(expr), //# C13 parse_precedence.loop.next_not_tighter
         ensures
-            binop_rank(ctx.tok()) < rank(prec), //# C13 parse_precedence.loop.exit
+            tok_rank(ctx.tok()) < rank(prec), //# C13 parse_precedence.loop.exit
 //@   endloop
 //@ end
 
@@ -550,10 +560,10 @@ impl Next for Prec {
     requires
         pe_shape(*lhs), //# C07 infix.pre.lhs_shape
         wf(*lhs), //# C13 infix.pre.lhs_wf
-        binop_rank(ctx.tok()) <= top_rank(*lhs), //# C13 infix.pre.op_not_tighter_than_lhs
+        tok_rank(ctx.tok()) <= top_rank(*lhs), //# C13 infix.pre.op_not_tighter_than_lhs_call_index_and_field_access_only_on_an_atom
     ensures
         r is Ok ==> wf(r->Ok_0.1), //# C13 infix.wf
-        r is Ok ==> binop_rank(r->Ok_0.0.tok()) <= top_rank(r->Ok_0.1), //# C13 infix.next_not_tighter
+        r is Ok ==> tok_rank(r->Ok_0.0.tok()) <= top_rank(r->Ok_0.1), //# C13 infix.next_not_tighter
         r is Ok && binop_rank(ctx.tok()) >= 0 ==> top_rank(r->Ok_0.1) == binop_rank(ctx.tok()), //# C13 infix.node_rank_is_operator_rank
         r is Ok && binop_rank(ctx.tok()) < 0 ==> top_rank(r->Ok_0.1) == 100, //# C13 infix.postfix_is_atom
         r is Ok ==> node_matches(ctx.tok(), r->Ok_0.1, *lhs), //# C13 infix.node_matches_operator
